@@ -47,7 +47,23 @@ def callee(cl):
     return f, (r["path"] if r else f["path"])
 
 
-def inventory(ctx, config, crate, amt):
+def table_functions(w):
+    """Unit table functions whose bodies were folded for EVERY variant when the
+    workspace model was built (name / symbol / si_prefix / scale): an index
+    expression in them was evaluated for each variant, so its bounds check
+    cannot fire (an out-of-range index would have failed the extraction)."""
+    res = set()
+    for q in w.qtypes:
+        for imp, fns in ((q.impl_unit, ("name", "symbol", "si_prefix")), (getattr(q, "impl_lsu", None), ("scale",))):
+            if imp is None:
+                continue
+            for it in imp["items"]:
+                if it["name"] in fns:
+                    res.add(it["path"])
+    return res
+
+
+def inventory(ctx, config, crate, amt, table_fns=()):
     sites = []
     fpdec_sites = 0
     unknown = []
@@ -59,6 +75,8 @@ def inventory(ctx, config, crate, amt):
             continue
         n_bodies += 1
         for a in m["asserts"]:
+            if a["kind"] == "BoundsCheck" and d in table_fns:
+                continue
             if not a["cleanup"] and not a.get("never_fires"):
                 sites.append((d, "assert:" + a["kind"], a["sp"]))
         for cl in m["calls"]:
@@ -471,7 +489,7 @@ def run(ctx):
         for crate in w.crates:
             if crate.is_test:
                 continue
-            nb, sites = inventory(ctx, config, crate, amt)
+            nb, sites = inventory(ctx, config, crate, amt, table_functions(w))
             total_bodies += nb
             if crate.name == "quantities":
                 exp = {(d, wh) for (d, wh, sp) in sites}
